@@ -7,6 +7,12 @@ var registry = map[string]func() core.Property{
 	"C02": NewC02,
 	"C03": NewC03,
 	"C04": NewC04,
+	"C08": NewC08,
+	"C09": NewC09,
+	"C13": NewC13,
+	"C10": NewC10,
+	"C11": NewC11,
+	"C12": NewC12,
 }
 
 // ByID returns the property implementation.
